@@ -235,7 +235,8 @@ struct Spec {
     reader: ReaderMode,
 }
 
-const KEYS: [&str; 8] = ["file", "files", "input", "a", "doc", "list", "meta", "x1"];
+// includes object keys that look like list indexes (a path segment is an index only when the current value is a list)
+const KEYS: [&str; 11] = ["file", "files", "0", "input", "a", "2024", "doc", "list", "meta", "x1", "7"];
 
 fn gen_vars_value(s: &mut dyn Src, depth: usize, req: usize, path: &mut Vec<Seg>, slots: &mut Vec<Slot>) -> Value {
     let k = if depth == 0 { s.weighted(&[5, 1]) } else { s.weighted(&[6, 1, 2, 2]) };
